@@ -10,10 +10,18 @@
 (*                                                                                              *)
 (* Environment (independently enabled):                                                         *)
 (*   AddMember(v, m)   the sync committee duty oracle gains validator v with committee          *)
-(*                     positions m.idx; m.acct: Vouch holds an account for it; m.zero: the      *)
-(*                     signer returns a zero signature for its messages (its signature fails)   *)
+(*                     positions m.idx; m.acct: Vouch holds an account for it                   *)
 (*   Advance(t)        the clock;   NewHead(r)   the beacon node's head root                    *)
-(*   the selection signer's answers are the argument H of FirePrepare                           *)
+(*   the SIGNER, at each of the three signing steps of every slot, chosen anew per call:        *)
+(*     "sel"  SignSyncCommitteeSelections (Prepare): the answers are the argument H of          *)
+(*            FirePrepare; H[r] = ZeroSig: the zero signature for that (member, subcommittee)   *)
+(*            and no error for the batch; E: an error for the whole batch                       *)
+(*     "root" SignSyncCommitteeRoots (Message): Z = the members answered with the zero          *)
+(*            signature; E: an error for the whole batch                                        *)
+(*     "cp"   SignContributionAndProofs (Aggregate): ZC = the (member, subcommittee) pairs      *)
+(*            answered with the zero signature; E: an error for the whole batch                 *)
+(*   The faults are recorded per (slot, step, member) in `faults` / `berr`; nothing carries     *)
+(*   over from one slot or step to another.                                                     *)
 (* Vouch:                                                                                       *)
 (*   Schedule(e, nc)   scheduleSyncCommitteeMessages for the period of epoch e                  *)
 (*   FirePrepare(s,H)  the prepare job of slot s: Prepare, then the message job is set up       *)
@@ -36,10 +44,12 @@ CONSTANTS SlotsPerEpoch,   \* SLOTS_PER_EPOCH
           HVals,           \* values of the selection scalar the signer's answers may have
           HMod,            \* the scalar is given modulo HMod
           MaxSched,        \* bounds for model checking
-          MaxFired
+          MaxFired,
+          FaultKinds,      \* what the signer may do: subset of {"sel", "root", "cp", "selerr", "rooterr", "cperr"}
+          Deviation        \* "none", or the name of a control design that must be rejected (see Deviations)
 
 VARIABLES now, fork, shape, target, head,
-          member,    \* function from the members of the duty to [idx, acct, zero]
+          member,    \* function from the members of the duty to [idx, acct]
           started,   \* the duty oracle is frozen once Vouch has acted on it
           sched,     \* Schedule calls so far: set of [period, at, nc]
           prepJobs,  \* slots with a pending prepare job
@@ -50,10 +60,25 @@ VARIABLES now, fork, shape, target, head,
           sel,       \* selected contribution aggregators: set of [slot, v, sub]
           roots,     \* head root obtained for a slot's messages: set of [slot, root]
           msgs,      \* submitted messages: set of [slot, v, root, sigv, sigroot, sigepoch]
-          contribs   \* submitted contributions: set of [slot, v, sub, root]
+          contribs,  \* submitted contributions: set of [slot, v, sub, root]
+          faults,    \* zero signatures the signer returned: set of [slot, step, v, sub] (sub = 0 for step "root")
+          berr       \* signing requests answered with an error for the whole batch: set of [slot, step]
 
 vars == <<now, fork, shape, target, head, member, started, sched, prepJobs, msgJobs, aggJobs,
-          prepared, hsig, sel, roots, msgs, contribs>>
+          prepared, hsig, sel, roots, msgs, contribs, faults, berr>>
+
+\* the scalar recorded for a zero selection signature (no real scalar is negative)
+ZeroSig == -1
+
+\* Control designs (vacuity self-check: TLC must find MembersIndependent violated for each of them):
+\*   ZeroSelFailsPrepare  one zero selection signature and the slot gets no message job
+\*   ZeroRootFailsAll     one zero root signature and nobody's message is submitted
+\*   ZeroCpFailsAll       one zero contribution-and-proof signature and no contribution is submitted
+\*   FaultSticks          a member whose selection signature was zero in some slot is left out of the
+\*                        messages of every later message job as well
+Deviations == {"none", "ZeroSelFailsPrepare", "ZeroRootFailsAll", "ZeroCpFailsAll", "FaultSticks"}
+ASSUME Deviation \in Deviations
+ASSUME FaultKinds \subseteq {"sel", "root", "cp", "selerr", "rooterr", "cperr"}
 
 Max(a, b) == IF a >= b THEN a ELSE b
 
@@ -88,7 +113,14 @@ IsAggregator(h) == h % Modulus = 0
 
 Known == DOMAIN member
 WithAccount == {v \in Known : member[v].acct}
-Healthy == {v \in Known : member[v].acct /\ ~member[v].zero}
+
+\* the faults of one slot
+SelZero(s) == {<<f.v, f.sub>> : f \in {g \in faults : g.slot = s /\ g.step = "sel"}}
+RootZero(s) == {f.v : f \in {g \in faults : g.slot = s /\ g.step = "root"}}
+CpZero(s) == {<<f.v, f.sub>> : f \in {g \in faults : g.slot = s /\ g.step = "cp"}}
+BatchErr(s, step) == [slot |-> s, step |-> step] \in berr
+\* the members whose message for slot s the property protects once the signer answered the batch
+Signed(s) == WithAccount \ RootZero(s)
 
 \* the selection signatures Prepare asks for: members with an account, per subcommittee position
 Requests == UNION {{<<v, SubOf(i)>> : i \in member[v].idx} : v \in WithAccount}
@@ -107,6 +139,7 @@ Init ==
     /\ sched = {}
     /\ prepJobs = {} /\ msgJobs = {} /\ aggJobs = {} /\ prepared = {}
     /\ hsig = {} /\ sel = {} /\ roots = {} /\ msgs = {} /\ contribs = {}
+    /\ faults = {} /\ berr = {}
 
 AddMember(v, m) ==
     /\ ~started
@@ -114,19 +147,19 @@ AddMember(v, m) ==
     /\ m.idx # {}
     /\ member' = [x \in Known \cup {v} |-> IF x = v THEN m ELSE member[x]]
     /\ UNCHANGED <<now, fork, shape, target, head, started, sched, prepJobs, msgJobs, aggJobs,
-                   prepared, hsig, sel, roots, msgs, contribs>>
+                   prepared, hsig, sel, roots, msgs, contribs, faults, berr>>
 
 Advance(t) ==
     /\ t \in Nows /\ t > now
     /\ now' = t
     /\ UNCHANGED <<fork, shape, target, head, member, started, sched, prepJobs, msgJobs, aggJobs,
-                   prepared, hsig, sel, roots, msgs, contribs>>
+                   prepared, hsig, sel, roots, msgs, contribs, faults, berr>>
 
 NewHead(r) ==
     /\ r \in Roots /\ r # head
     /\ head' = r
     /\ UNCHANGED <<now, fork, shape, target, member, started, sched, prepJobs, msgJobs, aggJobs,
-                   prepared, hsig, sel, roots, msgs, contribs>>
+                   prepared, hsig, sel, roots, msgs, contribs, faults, berr>>
 
 \* one prepare job per slot of the window (a slot that already has one keeps it); P = the pending
 \* prepare jobs after the call
@@ -141,34 +174,70 @@ Schedule(e, nc, P) ==
          /\ prepJobs' = P
     /\ started' = TRUE
     /\ UNCHANGED <<now, fork, shape, target, head, member, msgJobs, aggJobs,
-                   prepared, hsig, sel, roots, msgs, contribs>>
+                   prepared, hsig, sel, roots, msgs, contribs, faults, berr>>
 
-\* H: the scalars of the selection signatures the signer returned, one per request
-\* (the prepare job of a slot runs once: C02/C03)
-FirePrepare(s, H) ==
-    /\ s \in prepJobs /\ s \notin prepared
-    /\ Cardinality(prepared \cup {s}) <= MaxFired
-    /\ DOMAIN H = Requests
+Fault(s, step, v, sub) == [slot |-> s, step |-> step, v |-> v, sub |-> sub]
+BErr(s, step) == [slot |-> s, step |-> step]
+
+\* The prepare job of slot s (it runs once: C02/C03).
+\*   E   the selection signer answered the batch with an error (then H is the empty function)
+\*   H   otherwise: the scalars of the selection signatures the signer returned, one per request;
+\*       ZeroSig for a request answered with the zero signature
+\*   ZS  the zero-signed requests that end up selected all the same (the property is silent about
+\*       the member whose own signature is missing: hashing the zero signature like any other, or
+\*       leaving the member out, are both fine)
+\*   M   a message job for the slot exists afterwards.  It must whenever the signer answered the
+\*       batch: a zero signature for one member is no reason to leave the slot out for everyone.
+CanPrepare(s) == s \in prepJobs /\ s \notin prepared /\ Cardinality(prepared \cup {s}) <= MaxFired
+
+FirePrepare(s, H, E, ZS, M) ==
+    /\ CanPrepare(s)
+    /\ E \in BOOLEAN /\ M \in BOOLEAN
+    /\ E => Requests # {}
+    /\ DOMAIN H = (IF E THEN {} ELSE Requests)
+    /\ LET zero == {r \in DOMAIN H : H[r] = ZeroSig} IN
+         /\ ZS \subseteq zero
+         /\ (~E /\ ~(Deviation = "ZeroSelFailsPrepare" /\ zero # {})) => M
+         /\ hsig' = (hsig \ OfSlot(hsig, s)) \cup {[slot |-> s, v |-> r[1], sub |-> r[2], h |-> H[r]] : r \in DOMAIN H}
+         /\ sel' = (sel \ OfSlot(sel, s))
+                     \cup {[slot |-> s, v |-> r[1], sub |-> r[2]] : r \in {q \in DOMAIN H \ zero : IsAggregator(H[q])} \cup ZS}
+         /\ faults' = faults \cup {Fault(s, "sel", r[1], r[2]) : r \in zero}
+    /\ berr' = IF E THEN berr \cup {BErr(s, "sel")} ELSE berr
     /\ prepJobs' = prepJobs \ {s}
     /\ prepared' = prepared \cup {s}
-    /\ msgJobs' = msgJobs \cup {s}
-    /\ hsig' = (hsig \ OfSlot(hsig, s)) \cup {[slot |-> s, v |-> r[1], sub |-> r[2], h |-> H[r]] : r \in Requests}
-    /\ sel' = (sel \ OfSlot(sel, s)) \cup {[slot |-> s, v |-> r[1], sub |-> r[2]] : r \in {q \in Requests : IsAggregator(H[q])}}
+    /\ msgJobs' = IF M THEN msgJobs \cup {s} ELSE msgJobs
     /\ started' = TRUE
     /\ UNCHANGED <<now, fork, shape, target, head, member, sched, aggJobs, roots, msgs, contribs>>
 
 \* the message a member with a working signature sends for slot s over root r
 Message(s, v, r) == [slot |-> s, v |-> v, root |-> r, sigv |-> v, sigroot |-> r, sigepoch |-> Epoch(s)]
 
-\* A: is an aggregation job set up?  It must be when a member whose own duty works is selected;
-\* it may be when only members whose signature failed are selected.
-FireMessage(s, A) ==
+\* a selected pair whose contribution the property protects: the member has an account, its selection
+\* signature and its root signature for the slot were really given (the pair of a member whose own
+\* signature failed is left open)
+SoundWith(x, zsel, zroot) == x.v \in WithAccount /\ <<x.v, x.sub>> \notin zsel /\ x.v \notin zroot
+Sound(x) == SoundWith(x, SelZero(x.slot), RootZero(x.slot))
+
+\* The message job of slot s.
+\*   E   the root signer answered the batch with an error: nothing can be submitted
+\*   Z   otherwise: the members answered with the zero signature
+\*   A   an aggregation job is set up.  It must be when a sound pair is selected; it may be when only
+\*       pairs of members whose signature failed are selected.
+FireMessage(s, Z, E, A) ==
     /\ s \in msgJobs
+    /\ E \in BOOLEAN /\ A \in BOOLEAN
+    /\ Z \subseteq WithAccount
+    /\ E => (Z = {} /\ WithAccount # {})
     /\ msgJobs' = msgJobs \ {s}
     /\ roots' = (roots \ OfSlot(roots, s)) \cup {[slot |-> s, root |-> head]}
-    /\ msgs' = msgs \cup {Message(s, v, head) : v \in Healthy}
-    /\ A \in BOOLEAN
-    /\ (\E x \in OfSlot(sel, s) : x.v \in Healthy) => A
+    /\ faults' = faults \cup {Fault(s, "root", v, 0) : v \in Z}
+    /\ berr' = IF E THEN berr \cup {BErr(s, "root")} ELSE berr
+    /\ LET signed == IF E THEN {} ELSE WithAccount \ Z
+           dropped == CASE Deviation = "ZeroRootFailsAll" /\ Z # {} -> signed
+                        [] Deviation = "FaultSticks" -> {v \in signed : \E f \in faults : f.step = "sel" /\ f.v = v}
+                        [] OTHER -> {}
+       IN /\ msgs' = msgs \cup {Message(s, v, head) : v \in signed \ dropped}
+          /\ (~E /\ dropped = {} /\ \E x \in OfSlot(sel, s) : SoundWith(x, SelZero(s), Z)) => A
     /\ A => OfSlot(sel, s) # {}
     /\ aggJobs' = IF A THEN aggJobs \cup {s} ELSE aggJobs
     /\ UNCHANGED <<now, fork, shape, target, head, member, started, sched, prepJobs, prepared, hsig, sel, contribs>>
@@ -177,28 +246,57 @@ Remembered(s) == (CHOOSE x \in OfSlot(roots, s) : TRUE).root
 
 Contribution(x) == [slot |-> x.slot, v |-> x.v, sub |-> x.sub, root |-> Remembered(x.slot)]
 
-\* C: the contributions submitted; those of healthy selected members are obligatory, those of
-\* selected members whose message signature failed are left open
-FireAggregate(s, C) ==
+PairsOf(s) == {<<x.v, x.sub>> : x \in OfSlot(sel, s)}
+
+AggAll(s) == {Contribution(x) : x \in OfSlot(sel, s)}
+AggMust(s, ZC) == IF Deviation = "ZeroCpFailsAll" /\ ZC # {} THEN {}
+                  ELSE {Contribution(x) : x \in {y \in OfSlot(sel, s) : Sound(y) /\ <<y.v, y.sub>> \notin ZC}}
+
+\* The aggregation job of slot s.
+\*   E   the contribution-and-proof signer answered the batch with an error
+\*   ZC  otherwise: the selected pairs answered with the zero signature
+\*   C   the contributions submitted with a signature of their own: those of sound pairs that were
+\*       signed are obligatory, the others are left open
+FireAggregate(s, ZC, E, C) ==
     /\ s \in aggJobs
+    /\ E \in BOOLEAN
+    /\ ZC \subseteq PairsOf(s)
+    /\ E => ZC = {}
     /\ aggJobs' = aggJobs \ {s}
-    /\ {Contribution(x) : x \in {y \in OfSlot(sel, s) : y.v \in Healthy}} \subseteq C
-    /\ C \subseteq {Contribution(x) : x \in OfSlot(sel, s)}
+    /\ faults' = faults \cup {Fault(s, "cp", p[1], p[2]) : p \in ZC}
+    /\ berr' = IF E THEN berr \cup {BErr(s, "cp")} ELSE berr
+    /\ (IF E THEN {} ELSE AggMust(s, ZC)) \subseteq C
+    /\ C \subseteq AggAll(s)
     /\ contribs' = contribs \cup C
     /\ UNCHANGED <<now, fork, shape, target, head, member, started, sched, prepJobs, msgJobs, prepared, hsig, sel, roots, msgs>>
 
-\* (a member without an account has no signature that could fail)
-MemberSpace == {m \in [idx : IndexSets, acct : BOOLEAN, zero : BOOLEAN] : m.acct \/ ~m.zero}
+MemberSpace == [idx : IndexSets, acct : BOOLEAN]
 
+Opt(kind, S) == IF kind \in FaultKinds THEN S ELSE {}
+ErrChoice(kind) == IF kind \in FaultKinds THEN BOOLEAN ELSE {FALSE}
+
+\* Where an action leaves a set open between a least and a greatest value (the zero-signed requests
+\* selected all the same; the contributions submitted beyond the obligatory ones) Next enumerates the
+\* least set, the greatest set and the least set plus one element: every invariant that reads those
+\* sets is monotone in them.  (The trace specification uses the actions with the logged sets.)
+Extremes(lo, hi) == {lo, hi} \cup {lo \cup {x} : x \in hi}
 Next ==
     \/ \E v \in Members : \E m \in MemberSpace : AddMember(v, m)
     \/ \E t \in Nows : Advance(t)
     \/ \E r \in Roots : NewHead(r)
     \/ \E e \in ScheduleEpochs : \E nc \in BOOLEAN :
           \E W \in SUBSET Window(PeriodOf(e), now) : Schedule(e, nc, prepJobs \cup W)
-    \/ \E s \in prepJobs : \E H \in [Requests -> HVals] : FirePrepare(s, H)
-    \/ \E s \in msgJobs : \E A \in BOOLEAN : FireMessage(s, A)
-    \/ \E s \in aggJobs : \E C \in SUBSET {Contribution(x) : x \in OfSlot(sel, s)} : FireAggregate(s, C)
+    \/ \E s \in {x \in prepJobs : CanPrepare(x)} : \E M \in BOOLEAN :
+          \/ \E H \in [Requests -> HVals \cup Opt("sel", {ZeroSig})] :
+                \E ZS \in Extremes({}, {r \in Requests : H[r] = ZeroSig}) : FirePrepare(s, H, FALSE, ZS, M)
+          \/ "selerr" \in FaultKinds /\ FirePrepare(s, <<>>, TRUE, {}, M)
+    \/ \E s \in msgJobs : \E A \in BOOLEAN :
+          \/ \E Z \in {{}} \cup Opt("root", SUBSET WithAccount) : FireMessage(s, Z, FALSE, A)
+          \/ "rooterr" \in FaultKinds /\ FireMessage(s, {}, TRUE, A)
+    \/ \E s \in aggJobs :
+          \/ \E ZC \in {{}} \cup Opt("cp", SUBSET PairsOf(s)) :
+                \E C \in Extremes(AggMust(s, ZC), AggAll(s)) : FireAggregate(s, ZC, FALSE, C)
+          \/ "cperr" \in FaultKinds /\ \E C \in Extremes({}, AggAll(s)) : FireAggregate(s, {}, TRUE, C)
 
 Spec == Init /\ [][Next]_vars
 
@@ -206,7 +304,9 @@ Spec == Init /\ [][Next]_vars
 TypeOK ==
     /\ now \in Nows /\ fork \in Forks /\ shape \in Shapes /\ target \in Targets /\ head \in Roots
     /\ \A sh \in Shapes : \A t \in Targets : sh[1] % sh[2] = 0 /\ HMod % Max(1, (sh[1] \div sh[2]) \div t) = 0
-    /\ \A x \in hsig : x.h \in 0 .. (HMod - 1)
+    /\ \A x \in hsig : x.h \in (0 .. (HMod - 1)) \cup {ZeroSig}
+    /\ \A f \in faults : f.step \in {"sel", "root", "cp"} /\ f.v \in WithAccount
+    /\ \A b \in berr : b.step \in {"sel", "root", "cp"}
 
 Pending == prepJobs \cup prepared
 
@@ -226,23 +326,33 @@ JobOrder ==
 SignedOverObtainedRoot ==
     \A m \in msgs : /\ \E r \in OfSlot(roots, m.slot) : TRUE
                     /\ m.sigroot = m.root /\ m.sigv = m.v /\ m.sigepoch = Epoch(m.slot)
-                    /\ m.v \in Healthy
+                    /\ m.v \in Signed(m.slot) /\ ~BatchErr(m.slot, "root")
 
-\* C15: a member without an account, or whose signature is zero, removes only its own messages
-\* and contributions
+\* C15: a member without an account, or whose signature is zero at one of the signing steps of a
+\* slot, removes only its own message / contribution of that slot: in every slot
+\*   - whose selection batch was answered, the message job exists (or has run) whatever the
+\*     individual answers were,
+\*   - whose root batch was answered, every member with an account and a root signature has its
+\*     message submitted,
+\*   - in which a sound pair is selected, the aggregation job exists, or has run and (if its batch
+\*     was answered) submitted the contribution of every sound pair that was signed
 MembersIndependent ==
-    /\ \A r \in roots : \A v \in Healthy : \E m \in msgs : m.slot = r.slot /\ m.v = v /\ m.root = r.root
-    /\ \A r \in roots : (\E x \in OfSlot(sel, r.slot) : x.v \in Healthy) =>
+    /\ \A s \in prepared : ~BatchErr(s, "sel") => (s \in msgJobs \/ OfSlot(roots, s) # {})
+    /\ \A r \in roots : ~BatchErr(r.slot, "root") =>
+            \A v \in Signed(r.slot) : \E m \in msgs : m.slot = r.slot /\ m.v = v /\ m.root = r.root
+    /\ \A r \in roots : (~BatchErr(r.slot, "root") /\ \E x \in OfSlot(sel, r.slot) : Sound(x)) =>
             \/ r.slot \in aggJobs
-            \/ \A x \in OfSlot(sel, r.slot) : x.v \in Healthy => Contribution(x) \in contribs
+            \/ BatchErr(r.slot, "cp")
+            \/ \A x \in OfSlot(sel, r.slot) : (Sound(x) /\ <<x.v, x.sub>> \notin CpZero(r.slot)) => Contribution(x) \in contribs
 
 \* C15: contribution aggregators are selected per subcommittee by the specification's rule, among
-\* the members with an account, and contributions use the root remembered for the slot
+\* the members with an account (the pair of a zero selection signature is left open), and
+\* contributions use the root remembered for the slot
 AggregatorRuleExact ==
     /\ \A x \in hsig : x.v \in WithAccount /\ \E i \in member[x.v].idx : SubOf(i) = x.sub
-    /\ \A s \in prepared : \A v \in WithAccount : \A i \in member[v].idx :
+    /\ \A s \in prepared : ~BatchErr(s, "sel") => \A v \in WithAccount : \A i \in member[v].idx :
             \E x \in OfSlot(hsig, s) : x.v = v /\ x.sub = SubOf(i)
-    /\ \A x \in hsig : IsAggregator(x.h) <=> [slot |-> x.slot, v |-> x.v, sub |-> x.sub] \in sel
+    /\ \A x \in hsig : x.h # ZeroSig => (IsAggregator(x.h) <=> [slot |-> x.slot, v |-> x.v, sub |-> x.sub] \in sel)
     /\ \A y \in sel : \E x \in hsig : x.slot = y.slot /\ x.v = y.v /\ x.sub = y.sub
     /\ \A c \in contribs : [slot |-> c.slot, v |-> c.v, sub |-> c.sub] \in sel
                            /\ \E r \in roots : r.slot = c.slot
